@@ -161,9 +161,28 @@ wchar_t *GetEnvironmentStringsW(void) { return NULL; }
 BOOL FreeEnvironmentStringsW(wchar_t *p) { (void) p; return 1; }
 BOOL CreateProcessW(LPCWSTR a, LPWSTR c, SECURITY_ATTRIBUTES *pa, SECURITY_ATTRIBUTES *ta, BOOL i, DWORD f, LPVOID e, LPCWSTR d, LPSTARTUPINFOW si, PROCESS_INFORMATION *pi) { (void) a; (void) c; (void) pa; (void) ta; (void) i; (void) f; (void) e; (void) d; (void) si; (void) pi; return 0; }
 DWORD SetErrorMode(DWORD m) { return m; }
-DWORD GetProcessId(HANDLE h) { (void) h; return 1; }
-BOOL GenerateConsoleCtrlEvent(DWORD e, DWORD g) { (void) e; (void) g; return 1; }
-BOOL TerminateProcess(HANDLE h, DWORD c) { (void) h; (void) c; return 1; }
+/* unit 4 records what the signalling calls receive */
+static int two_procs[2];
+static DWORD pid_of[2];
+static int ctrl_calls, term_calls;
+static DWORD ctrl_event, ctrl_group, term_code;
+static HANDLE term_handle;
+static BOOL signal_ok;
+DWORD GetProcessId(HANDLE h) { return h == (HANDLE) &two_procs[0] ? pid_of[0] : h == (HANDLE) &two_procs[1] ? pid_of[1] : 0; }
+BOOL GenerateConsoleCtrlEvent(DWORD e, DWORD g)
+{
+  ctrl_calls++;
+  ctrl_event = e;
+  ctrl_group = g;
+  return signal_ok;
+}
+BOOL TerminateProcess(HANDLE h, DWORD c)
+{
+  term_calls++;
+  term_handle = h;
+  term_code = c;
+  return signal_ok;
+}
 
 #define STRIDE (VP_L + 1)
 #define JMAX (VP_NARG * (2 * VP_L + 3) + 2)
@@ -432,6 +451,33 @@ void harness(void)
   }
   VP_COVER(exit_code == 0xC000013Au && exit_ok && wait_result == 0, "CTRL-BREAK code");
   VP_COVER(exit_code == 255 && exit_ok && wait_result == 0, "exit code 255");
+  VP_COVER(1, "end of harness");
+}
+#endif
+
+#if VP_WUNIT == 4
+/* process_terminate / process_kill: the signal goes to the given child and to nothing else */
+void harness(void)
+{
+  pid_of[0] = (DWORD) vp_choice(4, 1 << 30); /* pids are non-zero multiples of 4 on Windows; 0 would mean "every */
+  pid_of[1] = (DWORD) vp_choice(4, 1 << 30); /* process sharing the console" to GenerateConsoleCtrlEvent       */
+  VP_ASSUME(pid_of[0] != pid_of[1]);
+  int which = vp_choice(0, 1);
+  signal_ok = vp_bool();
+  last_error = (DWORD) vp_choice(1, 20000);
+  bool kill = vp_bool();
+  HANDLE h = (HANDLE) &two_procs[which];
+  int r = kill ? process_kill(h) : process_terminate(h);
+  if (kill) {
+    VP_ASSERT(C06, term_calls == 1 && ctrl_calls == 0 && term_handle == h, "kill does not terminate exactly the given child");
+    VP_ASSERT(C01, term_code == 137, "a killed child is not given exit status 137");
+  } else {
+    VP_ASSERT(C06, ctrl_calls == 1 && term_calls == 0 && ctrl_group == pid_of[which] && ctrl_event == CTRL_BREAK_EVENT,
+              "terminate does not send CTRL-BREAK to exactly the given child's process group");
+  }
+  VP_ASSERT(C06, r == (signal_ok ? 0 : -(int) last_error), "the result of the signalling call is not reported");
+  VP_COVER(kill && signal_ok, "kill succeeds");
+  VP_COVER(!kill && !signal_ok, "terminate fails");
   VP_COVER(1, "end of harness");
 }
 #endif
